@@ -61,5 +61,45 @@ theorem HandedBack.detached {w w' : World} {old : Elem} {x : SlabID} {c : Cont} 
   obtain ⟨c', h1, h2, h3, h4, h5⟩ := hb x c hx hc
   exact ⟨⟨by rw [h1]; rfl, h5⟩, c', h1, h2, h3, h4⟩
 
+/-- in a list of pairwise different keys, the key at a position occurs nowhere else -/
+theorem keysDistinct_zipper {A B : List (MKey × Elem)} {k : MKey} {v : Elem} (h : KeysDistinct (A ++ (k, v) :: B)) :
+    ∀ p ∈ A ++ B, p.1 ≠ k := by
+  unfold KeysDistinct at h
+  rw [List.pairwise_append, List.pairwise_cons] at h
+  obtain ⟨_, ⟨hB, _⟩, hAB⟩ := h
+  intro p hp he
+  rcases List.mem_append.mp hp with hA | hB'
+  · have := hAB p hA (k, v) List.mem_cons_self
+    rw [he] at this
+    simp [MKey.same_self] at this
+  · have := hB p hB'
+    rw [he] at this
+    simp [MKey.same_self] at this
+
+variable {D : SlabID → DigestFn 4}
+
+/-- reading a key that no pair of a live map carries: `KeyNotFound` -/
+theorem get_absent_of_worldOk' {w : World} {ctr : Nat} (H : WorldOk' D w ctr) {p : SlabID} {pm : OMap 3}
+    (hp : w.cont? p = some (.map pm)) {k : MKey} (hk : KeyOk w.T 4 (D p) k) (hno : ∀ q ∈ pm.toList, q.1 ≠ k) :
+    pm.get w.mcfg k = .error .keyNotFound := by
+  obtain ⟨rank, H0⟩ := H
+  have hmok : MapOk w.T (D p) pm ctr := H0.conts p _ hp
+  exact (hmok.get_spec H0.legal (H0.cfgOk hp) hk).2 hno
+
+/-- reading a key of a live map: the pair of the list -/
+theorem get_present_of_worldOk' {w : World} {ctr : Nat} (H : WorldOk' D w ctr) {p : SlabID} {pm : OMap 3}
+    (hp : w.cont? p = some (.map pm)) {k : MKey} (hk : KeyOk w.T 4 (D p) k) {e : Elem} (hmem : (k, e) ∈ pm.toList) :
+    pm.get w.mcfg k = .ok (k, e) := by
+  obtain ⟨rank, H0⟩ := H
+  have hmok : MapOk w.T (D p) pm ctr := H0.conts p _ hp
+  exact (hmok.get_spec H0.legal (H0.cfgOk hp) hk).1 e hmem
+
+/-- the keys of a live map are pairwise different -/
+theorem keysDistinct_of_worldOk' {w : World} {ctr : Nat} (H : WorldOk' D w ctr) {p : SlabID} {pm : OMap 3}
+    (hp : w.cont? p = some (.map pm)) : KeysDistinct pm.toList := by
+  obtain ⟨rank, H0⟩ := H
+  have hmok : MapOk w.T (D p) pm ctr := H0.conts p _ hp
+  exact hmok.distinct
+
 end World
 end Atree
